@@ -290,6 +290,33 @@ def h_sctp_init_then_valid(ctx, role):
         ctx.observe("n", len(log))
 
 
+def h_sctp_sack_then_valid(ctx, role):
+    """A well-formed SACK with a nonsensical cumulative TSN (anything, also far beyond what was
+    ever sent) reaches a sender with two chunks outstanding; the peer's genuine SACK for those two
+    chunks must still be honoured: nothing stays outstanding, T3 stops."""
+    with Env(crc=(lambda d: 0) if sx.active() else None) as env:
+        t, ch = _mk_transport(env, "established_server" if role == "server" else "established_client")
+        ctx.check(len(t._sent_queue) == 2 and t._sent_queue[0].tsn == 1000, "two-chunks-outstanding")
+        for k in range(2):
+            if k == 1:
+                t._data_channel_send(ch, b"fresh")  # the application keeps sending
+                env.drain()
+            s = sctp.SackChunk()
+            s.cumulative_tsn = ctx.int("bogus_cumulative_tsn", 0, 0xFFFFFFFF) if k == 0 else (t._local_tsn - 1) & 0xFFFFFFFF
+            s.advertised_rwnd = 131072
+            data = sctp.serialize_packet(5000, 5000, 0x11223344, s)
+            if not sx.active():
+                data = _crc_patch(data)
+            with sx.timelimit(ctx, 2.0, "hang:work-out-of-proportion"):
+                sx.run(t._handle_data(data))
+                env.drain()
+        ctx.reach("sack-after-bogus-sack-handled")
+        ctx.check(t._association_state == State.ESTABLISHED, "association-still-established")
+        ctx.check(len(t._sent_queue) == 0, "genuine-sack-after-a-nonsensical-one-is-honoured", "%d chunk(s) still outstanding" % len(t._sent_queue))
+        ctx.check(t._t3_handle is None or not t._t3_handle.pending, "t3-stops-once-everything-is-acknowledged")
+        ctx.observe("left", len(t._sent_queue))
+
+
 def h_sctp_then_valid(ctx, role, unordered):
     """'... and processes subsequent valid traffic normally': one well-formed but nonsensical
     complete DATA message (any TSN, any stream sequence number, valid tag) on an open channel's
@@ -698,6 +725,7 @@ HARNESSES = {
     "sctp-then-valid": Harness("sctp-then-valid", h_sctp_then_valid, lambda tier: [{"role": r, "unordered": u} for r in ("client", "server") for u in (False, True)], style="NC + delivery (structure-aware)", bounds="one complete DATA message with symbolic 32-bit TSN and stream sequence number 2..65535 (ordered or unordered), then two genuine ordered messages", encoded=ENC_SCTP, stubs=STUBS, opts=NC_OPTS, twin="valid-after-bogus-handled"),
     "recv-next": Harness("recv-next", lambda ctx, **kw: __import__("harness.c04_dtls", fromlist=["h_demux"]).h_demux(ctx, **kw), lambda tier: [{"connected": True, "n": n} for n in (0, 1, 12)], style="NC", bounds="RTCDtlsTransport._recv_next on one datagram of 0, 1 or 12 bytes whose first two bytes are symbolic", encoded=["aiortc.rtcdtlstransport:RTCDtlsTransport._recv_next"], stubs=["SRTP session -> identity recorder; DTLS engine -> recorder; RTP/RTCP handlers -> recorders"], twin="demuxed", opts=NC_OPTS),
     "stray-dcep": Harness("stray-dcep", lambda ctx, **kw: __import__("harness.c13_channel", fromlist=["h_states"]).h_states(ctx, **kw), lambda tier: [{"pre": p, "event": "dcep"} for p in ("connecting", "open", "closing", "closing-requested", "closed")], style="STEP", bounds="one well-formed but unexpected DCEP message (symbolic stream and message byte) reaching a channel in each lifecycle state: its readyState never moves backwards, no second open / close event, nothing escapes", encoded=ENC_SCTP + ["aiortc.rtcsctptransport:RTCSctpTransport._data_channel_receive"], stubs=STUBS, twin="event-processed", opts={"samples": 1}),
+    "sctp-sack-then-valid": Harness("sctp-sack-then-valid", h_sctp_sack_then_valid, lambda tier: [{"role": r} for r in ("client", "server")], style="NC + progress (structure-aware)", bounds="one SACK with a symbolic 32-bit cumulative TSN on a sender with two chunks outstanding, then one more message and the genuine SACK for everything sent", encoded=ENC_SCTP, stubs=STUBS, opts=NC_OPTS, twin="sack-after-bogus-sack-handled"),
     "sctp-init-then-valid": Harness("sctp-init-then-valid", h_sctp_init_then_valid, lambda tier: [{"role": r} for r in ("client", "server")], style="NC + delivery (structure-aware)", bounds="one INIT with symbolic initiate tag, rwnd, stream counts and initial TSN on an ESTABLISHED association, then two genuine ordered messages", encoded=ENC_SCTP, stubs=STUBS, opts=NC_OPTS, twin="valid-after-init-handled"),
     "sctp-sack-gaps": Harness("sctp-sack-gaps", h_sctp_sack_gaps, lambda tier: [{"ngaps": g} for g in ((1, 2) if tier == "quick" else (1, 2, 8, 100))], style="NC (targeted, concrete large count)", bounds="SACK with up to 100 maximal gap blocks (0..65535), first block symbolic", encoded=ENC_SCTP, stubs=STUBS, opts=dict(NC_OPTS, path_timeout_s=20), twin="sack-handled"),
     "receiver": Harness("receiver", h_receiver, _recv_jobs, style="NC", bounds="real RTCRtpReceiver (video; VP8, H264 and their RTX), payload 0..8 (quick) / 0..12 symbolic bytes, timestamp/marker/arrival symbolic, payload type / sequence number / SSRC from a fixed set, fresh or one-packet-warm receiver", encoded=ENC_RTP, stubs=STUBS, opts=NC_OPTS, twin="rtp-packet-handled"),
